@@ -282,7 +282,10 @@ PageRules(s, e, d) ==
      \o Fail(ok /\ \E i \in 1..Len(E) : E[i].plus /\
                 LET x == s.objs[EntObj(s, d, E[i].name)] IN
                   \/ E[i].fh # x.fh \/ E[i].type # x.kind
-                  \/ (SizeOf(x) >= 0 /\ E[i].size # SizeOf(x)), "C02,C13:entry-handle-or-attributes")
+                  \/ (SizeOf(x) >= 0 /\ E[i].size >= 0 /\ E[i].size # SizeOf(x)), "C02,C13:entry-handle-or-attributes")
+                  (* size = -1: not compared. The attributes of a READDIRPLUS entry are read under that child's lock, one child   *)
+                  (* at a time: in a concurrent history each is a read of its own, valid at some moment of the call, and the      *)
+                  (* concurrent drivers record -1 for them (names, file ids, handles and types are still those of one state).    *)
      \o Fail(~e.reof /\ Len(E) = 0, "C13:empty-page-without-eof")
      \o Fail(\E i \in 1..Len(E) : E[i].cookie = 0, "C13:entry-cookie-is-the-start-cookie")
 
